@@ -962,14 +962,14 @@ Lemma loop_arm_rel c c' : R c c' ->
      let* '(cond, c2) := (if is_k KDo c1 then ok (EBool true, c1) else expression T c1) in
      let* '(body, c3) := statement c2 in
      match prev c3 with
-     | Some cp => ok (SLoop cond body, cp)
+     | Some cp => ok (SLoop cond body, if is_k KNewline cp then cp else c3)
      | None => panic
      end)
     (let c1 := skip 1 c' in
      let* '(cond, c2) := (if is_k KDo c1 then ok (EBool true, c1) else expression T c1) in
      let* '(body, c3) := statement c2 in
      match prev c3 with
-     | Some cp => ok (SLoop cond body, cp)
+     | Some cp => ok (SLoop cond body, if is_k KNewline cp then cp else c3)
      | None => panic
      end).
 Proof.
@@ -979,7 +979,8 @@ Proof.
       try (apply prel_ret; exact I).
     destruct Ho as [-> HR3]. cbn [UPost] in U, U'. cbn [ok ptry].
     destruct (R_prev_ltm _ _ _ _ HR U U' HR3) as (cq & cq' & -> & -> & HQ).
-    apply prel_ok. split; [reflexivity|exact HQ].
+    apply prel_ok. split; [reflexivity|]. cbn [snd]. rewrite (R_is_k KNewline _ _ HQ).
+    destruct (is_k KNewline cq); assumption.
   - intros cx es cx' es' HE. cbn [reraise ptry]. apply prel_ret. exact HE.
 Qed.
 
@@ -1135,10 +1136,10 @@ Proof.
   destruct (statement_pre_insensitive T TOK f
               (mkctx (TK KLoop :: p) (TK KDo :: ts) ov false)
               (mkctx (TBool true :: TK KLoop :: p) (TK KDo :: ts) ov false) body c3
-              ltac:(repeat split) Hb) as (c3' & Hb' & _ & Hp).
+              ltac:(repeat split) Hb) as (c3' & Hb' & H3 & Hp).
   pose proof (go_ok_le T f (S (S f)) _ _ ltac:(lia) Hb') as Hb2.
   pose proof (loop_true_do_step T p ts ov b f body c3' Hdo Hb2) as Ht.
-  pose proof (loop_finish_smp b (EBool true) body c3 c3' Hp) as Hs.
+  pose proof (loop_finish_smp b (EBool true) body c3 c3' H3 Hp) as Hs.
   rewrite Hf in Hs.
   destruct (loop_finish b (EBool true) body c3') as [o'| | |] eqn:Hf'; cbn [same_out] in Hs; try contradiction.
   destruct o'; try contradiction. destruct Hs as [<- Hs].
@@ -1215,9 +1216,9 @@ Proof.
   destruct (statement_pre_insensitive T TOK (S (S f))
               (mkctx (TBool true :: TK KLoop :: p) (TK KDo :: ts) ov false)
               (mkctx (TK KLoop :: p) (TK KDo :: ts) ov false) body c3'
-              ltac:(repeat split) Hb) as (c3 & Hb' & _ & Hp).
+              ltac:(repeat split) Hb) as (c3 & Hb' & Hsm & Hp).
   pose proof (loop_do_step T p ts ov b (S (S f)) body c3 Hb') as Ht.
-  pose proof (loop_finish_smp b (EBool true) body c3' c3 Hp) as Hs.
+  pose proof (loop_finish_smp b (EBool true) body c3' c3 Hsm Hp) as Hs.
   rewrite H3 in Hs.
   destruct (loop_finish b (EBool true) body c3) as [o'| | |] eqn:Hf'; cbn [same_out] in Hs; try contradiction.
   destruct o'; try contradiction. destruct Hs as [<- Hs].
